@@ -28,7 +28,7 @@ ASSUMPTIONS = ["port names and hardware addresses are unique among the ports "
                "that exist at the same time",
                "a statistics reply whose final part never arrives is simply "
                "never announced"]
-REQUIRED = ["replies_of_very_many_parts", "port_status_in_one_read_with_the_end_of_the_handshake", "port_status_for_a_port_a_reply_under_way_reports_on", "port_histories", "views_compared", "renames", "deletes",
+REQUIRED = ["listeners_attached_while_a_reply_is_under_way", "replies_of_very_many_parts", "port_status_in_one_read_with_the_end_of_the_handshake", "port_status_for_a_port_a_reply_under_way_reports_on", "port_histories", "views_compared", "renames", "deletes",
             "readds", "stale_name_lookups", "stats_histories",
             "multipart_events", "interleaved_histories", "sequential_pairs",
             "features_refreshes", "early_port_status",
@@ -325,19 +325,27 @@ def run_stats (case, rep):
   peer.handshake(case["dpid"], [ctl.phy_port(1)])
   con = peer.con
   got = []
-  for st, name in EVENT_NAMES.items():
-    def mk (st):
-      def h (e):
-        try:
-          ids = [entry_id(st, s) for s in e.stats]
-        except Exception as ex:
-          ids = ["unreadable: %r" % (ex,)]
-        got.append((st, ids))
-      return h
-    con.addListenerByName(name, mk(st))
+  late = case.get("late")
+  def attach ():
+    for st, name in EVENT_NAMES.items():
+      def mk (st):
+        def h (e):
+          try:
+            ids = [entry_id(st, s) for s in e.stats]
+          except Exception as ex:
+            ids = ["unreadable: %r" % (ex,)]
+          got.append((st, ids))
+        return h
+      con.addListenerByName(name, mk(st))
+  if late is None: attach()
+  else:
+    # whoever wants the statistics starts listening only while the reply is
+    # already arriving (parts that came before belong to it all the same)
+    case["_attach"] = attach
+    rep.count("listeners_attached_while_a_reply_is_under_way")
   nexus_got = []
   lids = []
-  for st, name in EVENT_NAMES.items():
+  for st, name in (EVENT_NAMES.items() if late is None else ()):
     def mkn (st):
       def h (e):
         if e.connection is not con: return
@@ -398,7 +406,7 @@ def run_stats (case, rep):
       other.con.addListenerByName(name, mko(st))
   try:
     r = _run_stats_body(case, rep, fire, peer, got, other=other, other_got=other_got)
-    if got and not fired:
+    if got and not fired and late is None:
       rep.count("nexus_level_stats_events_compared")
       if nexus_got != got:
         fire("statistics events on the nexus differ from those on the connection",
@@ -472,7 +480,9 @@ def _run_stats_body (case, rep, fire, peer, got, other=None, other_got=None):
   expected = []          # in completion order
   progress = {i: 0 for i in range(len(reqs))}
   nt = False
-  for which in case["order"]:
+  for oi, which in enumerate(case["order"]):
+    if case.get("late") == oi and case.get("_attach"):
+      case.pop("_attach")()
     if which == "noise":
       raw = ofwire.enc_message("echo_reply", dict(xid=1, body=b"n"))
       raw += ofwire.enc_message("port_status", dict(
@@ -745,6 +755,15 @@ def gen_stats (rng, n):
         pass
     case = dict(kind="stats", dpid=[0, 201, 202, (1 << 64) - 1 - 2000, 204][ci % 5], requests=reqs, order=order,
                 interleaved=bool(inter), mode=mode)
+    if rng.random() < 0.2:
+      # index (in the order of arrival) of the first part that completes a reply
+      prog = {}; ff = None
+      for oi, w_ in enumerate(order):
+        if isinstance(w_, int):
+          prog[w_] = prog.get(w_, 0) + 1
+          if prog[w_] == len(reqs[w_]["parts"]) and reqs[w_]["complete"]:
+            ff = oi; break
+      if ff: case["late"] = rng.randrange(1, ff + 1)
     if rng.random() < 0.3: case["second_connection"] = True
     if rng.random() < 0.3: case["halt_raw"] = rng.choice(["all", "final", "first", "parts"])
     elif rng.random() < 0.3:
